@@ -2,8 +2,11 @@ package main
 
 import (
 	"context"
+	"encoding/hex"
+	"errors"
 	"fmt"
 	"sync"
+	"sync/atomic"
 	"time"
 
 	"github.com/pingcap/kvproto/pkg/metapb"
@@ -43,8 +46,31 @@ func heartbeatTS(class string) (time.Time, error) {
 // config.NewTestOptions registers schedulers in a global map: clusters are created one at a time.
 var clusterMu sync.Mutex
 
+// faultCluster is the opt.Cluster the checkers see: the mock cluster, with an id allocator that can be
+// made to fail (a real AllocID fails when the etcd write of the id window fails).
+type faultCluster struct {
+	*mockcluster.Cluster
+	failAlloc  int32 // != 0: AllocID returns an error
+	allocFails int64 // number of failed allocations
+}
+
+func (f *faultCluster) AllocID() (uint64, error) {
+	if atomic.LoadInt32(&f.failAlloc) != 0 {
+		atomic.AddInt64(&f.allocFails, 1)
+		return 0, errors.New("injected: id allocation failed")
+	}
+	return f.Cluster.AllocID()
+}
+
+// GetStore of the mock reads the store map without the cluster lock (the real RaftCluster.GetStore takes
+// it); a checker call that runs while a store is updated must go through the locked accessor.
+func (f *faultCluster) GetStore(id uint64) *core.StoreInfo {
+	return f.Cluster.BasicCluster.GetStore(id)
+}
+
 type cluster struct {
 	*mockcluster.Cluster
+	fc           *faultCluster
 	cancel       context.CancelFunc
 	replica      *checker.ReplicaChecker
 	rule         *checker.RuleChecker
@@ -84,7 +110,8 @@ func newCluster(w *world) (*cluster, error) {
 		}
 	}
 
-	cl := &cluster{Cluster: mc, cancel: cancel}
+	fc := &faultCluster{Cluster: mc}
+	cl := &cluster{Cluster: mc, fc: fc, cancel: cancel}
 	if w.Rules != "off" {
 		mc.SetEnablePlacementRules(true) // makes sure the rule manager exists (it may have been created with pd's defaults)
 		// the default rule: max-replicas voters with the cluster's location labels and isolation level
@@ -95,34 +122,46 @@ func newCluster(w *world) (*cluster, error) {
 			// the default rule the rule manager was initialised with stays (the oracles read the served rules)
 			cl.rulesDropped++
 		}
-		switch w.Rules {
-		case "default":
-		case "custom":
-			kept := 0
-			for i := range w.RuleSet {
-				rule := toRule(&w.RuleSet[i])
-				if err := mc.RuleManager.SetRule(rule); err != nil {
-					// pd refuses a rule no store can match: the world simply goes without it
-					cl.rulesDropped++
-					continue
-				}
-				kept++
-			}
-			if kept > 0 {
-				if err := mc.RuleManager.DeleteRule("pd", "default"); err != nil {
-					// pd refuses a rule set without a leader / voter rule: the default rule stays next to the custom ones
-					cl.defaultKept = true
-				}
-			}
-		default:
+		if w.Rules != "default" && w.Rules != "custom" {
 			return fail("unknown rules mode %q", w.Rules)
 		}
-		cl.rule = checker.NewRuleChecker(mc, mc.RuleManager, cache.NewDefaultCache(schedule.DefaultCacheSize))
+		kept := 0
+		var ranged []*placement.Rule
+		for i := range w.RuleSet {
+			rule := toRule(&w.RuleSet[i])
+			if w.RuleSet[i].StartID != 0 || w.RuleSet[i].EndID != 0 {
+				ranged = append(ranged, rule)
+				continue
+			}
+			if err := mc.RuleManager.SetRule(rule); err != nil {
+				// pd refuses a rule no store can match: the world simply goes without it
+				cl.rulesDropped++
+				continue
+			}
+			kept++
+		}
+		if len(ranged) > 0 {
+			// the rules on key ranges go in as one batch; if pd refuses the batch, one by one
+			if err := mc.RuleManager.SetRules(ranged); err != nil {
+				for _, rule := range ranged {
+					if err := mc.RuleManager.SetRule(rule); err != nil {
+						cl.rulesDropped++
+					}
+				}
+			}
+		}
+		if kept > 0 {
+			if err := mc.RuleManager.DeleteRule("pd", "default"); err != nil {
+				// pd refuses a rule set without a leader / voter rule: the default rule stays next to the custom ones
+				cl.defaultKept = true
+			}
+		}
+		cl.rule = checker.NewRuleChecker(fc, mc.RuleManager, cache.NewDefaultCache(schedule.DefaultCacheSize))
 	} else {
-		cl.replica = checker.NewReplicaChecker(mc, cache.NewDefaultCache(schedule.DefaultCacheSize))
+		cl.replica = checker.NewReplicaChecker(fc, cache.NewDefaultCache(schedule.DefaultCacheSize))
 	}
-	oc := schedule.NewOperatorController(ctx, mc, nil)
-	cl.controller = schedule.NewCheckerController(ctx, mc, mc.RuleManager, oc)
+	oc := schedule.NewOperatorController(ctx, fc, nil)
+	cl.controller = schedule.NewCheckerController(ctx, fc, mc.RuleManager, oc)
 	return cl, nil
 }
 
@@ -191,6 +230,12 @@ func putStore(mc *mockcluster.Cluster, s *storeDesc) error {
 func toRule(rd *ruleDesc) *placement.Rule {
 	rule := &placement.Rule{GroupID: "pd", ID: rd.ID, Role: placement.PeerRoleType(rd.Role), Count: rd.Count,
 		LocationLabels: append([]string(nil), rd.Loc...), IsolationLevel: rd.Iso}
+	if rd.StartID != 0 {
+		rule.StartKeyHex = hex.EncodeToString([]byte(fmt.Sprintf("%20d", rd.StartID)))
+	}
+	if rd.EndID != 0 {
+		rule.EndKeyHex = hex.EncodeToString([]byte(fmt.Sprintf("%20d", rd.EndID)))
+	}
 	for _, c := range rd.Cons {
 		rule.LabelConstraints = append(rule.LabelConstraints, placement.LabelConstraint{Key: c.Key,
 			Op: placement.LabelConstraintOp(c.Op), Values: append([]string(nil), c.Values...)})
@@ -200,8 +245,48 @@ func toRule(rd *ruleDesc) *placement.Rule {
 
 func descOfRule(r *placement.Rule) ruleDesc {
 	rd := ruleDesc{ID: r.ID, Role: string(r.Role), Count: r.Count, Loc: append([]string(nil), r.LocationLabels...), Iso: r.IsolationLevel}
+	if b, err := hex.DecodeString(r.StartKeyHex); err == nil && len(b) > 0 {
+		fmt.Sscanf(string(b), "%d", &rd.StartID)
+	}
+	if b, err := hex.DecodeString(r.EndKeyHex); err == nil && len(b) > 0 {
+		fmt.Sscanf(string(b), "%d", &rd.EndID)
+	}
 	for _, c := range r.LabelConstraints {
 		rd.Cons = append(rd.Cons, consDesc{Key: c.Key, Op: string(c.Op), Values: append([]string(nil), c.Values...)})
 	}
 	return rd
+}
+
+// updateStore changes a served store the way the server does: get the record, clone it with options
+// (labels, state, heartbeat time, stats through the shared stats object), put it back.
+func updateStore(mc *mockcluster.Cluster, s *storeDesc) error {
+	old := mc.BasicCluster.GetStore(s.ID)
+	if old == nil {
+		return putStore(mc, s)
+	}
+	var labels []*metapb.StoreLabel
+	for _, l := range s.Labels {
+		labels = append(labels, &metapb.StoreLabel{Key: l.K, Value: l.V})
+	}
+	hb, err := heartbeatTS(s.HB)
+	if err != nil {
+		return err
+	}
+	stats := &pdpb.StoreStats{StoreId: s.ID, Capacity: s.CapGiB * gib, Available: s.AvailGiB * gib,
+		UsedSize: (s.CapGiB - s.AvailGiB) * gib, IsBusy: s.Busy,
+		SendingSnapCount: uint32(s.SendSnap), ReceivingSnapCount: uint32(s.RecvSnap)}
+	so := []core.StoreCreateOption{core.SetStoreLabels(labels), core.SetLastHeartbeatTS(hb), core.SetStoreStats(stats),
+		core.SetRegionCount(s.RegionCount), core.SetRegionSize(s.RegionSizeMiB), core.SetPendingPeerCount(s.Pending)}
+	switch s.State {
+	case stUp:
+		so = append(so, core.UpStore())
+	case stOffline:
+		so = append(so, core.OfflineStore(false))
+	case stTombstone:
+		so = append(so, core.TombstoneStore())
+	default:
+		return fmt.Errorf("unknown store state %q", s.State)
+	}
+	mc.PutStore(old.Clone(so...))
+	return nil
 }
